@@ -552,6 +552,9 @@ def fam_io(tier):
                 yield ("io", place, d, w, "whole")
             for sel in ("reversed", "noncontig", "slice", "split", "repeat-free-concat"):
                 yield ("io", place, d, 4, sel)
+        # one port used in different directions on disjoint bits (the port's direction must cover both uses)
+        for dirs in (("i", "o"), ("o", "i"), ("i", "io"), ("o-noen", "i")):
+            yield ("io", place, dirs, 4, "split")
 
 
 def _io_select(pad, sel):
@@ -582,6 +585,7 @@ def build_io(desc):
     for k, part in enumerate(_io_select(pad, sel)):
         pw = len(part)
         i, o, oe = Signal(pw, name=f"i{k}"), Signal(pw, name=f"o{k}"), Signal(name=f"oe{k}")
+        d = desc[2][k] if isinstance(desc[2], tuple) else desc[2]
         if d == "i":
             host.submodules += IOBufferInstance(part, i=i)
             ports += [i]
